@@ -77,6 +77,12 @@ class Scenario:
                 self.enter_time = self.loop.time()
                 self.seen_at_entry = sorted(gw.nodes)
                 gw.nodes[9] = Node(9, 17, "2.1", sketch_name="added by body")
+                if self.cfg.get("body_read") == "eof":
+                    # the peer has closed the connection: the body's read fails with a transport error
+                    try:
+                        await gw.listen().__anext__()
+                    except AIOMySensorsError:
+                        pass
                 await self.exit_event.wait()
                 self.exit_time = self.loop.time()
                 # the body changes the registry once more just before it leaves
@@ -304,6 +310,8 @@ def make_transport(cfg, loop, sc):
 
         writer = _StreamWriterFake(cfg["disconnect"] == "fail")
         reader = asyncio.StreamReader(loop=loop)
+        if cfg.get("body_read") == "eof":
+            reader.feed_eof()
 
         async def factory(*a, **kw):
             if cfg["connect"] == "fail":
@@ -371,6 +379,9 @@ def configs(ctx: core.Ctx) -> list:
                 out.append({"body": body, "connect": "ok", "disconnect": disconnect, "file": "present", "transport": kind})
         out.append({"body": "return", "connect": "fail", "disconnect": "ok", "file": "present", "transport": kind})
     out.append({"body": "return", "connect": "subscribe-fail", "disconnect": "ok", "file": "present", "transport": "mqtt"})
+    for kind in ("tcp", "serial"):
+        for body in ("return", "raise"):
+            out.append({"body": body, "connect": "ok", "disconnect": "ok", "file": "present", "transport": kind, "body_read": "eof"})
     return out
 
 
